@@ -796,6 +796,12 @@ class MatchFunction:
     def __init__(self, fn):
         self.fn = fn
 
+    def __eq__(self, other):
+        return type(other) is type(self) and other.fn == self.fn
+
+    def __hash__(self):
+        return hash((type(self), self.fn))
+
 
 class _MatchReceiver(MatchFunction):
     """Match the receiver of a method, by identity.
